@@ -571,9 +571,11 @@ def glue_threading() -> None:
         # If the thread is not alive both before and after we try to fetch
         # its frame, then it's possible that its identity was reused, and
         # we shouldn't trust the frame we get.
-        if thread.ident == threading.get_ident():
+        if thread.ident == threading.get_ident() and thread.is_alive():
             # The calling thread: its innermost frame right now is one of
-            # ours; end at the caller instead, as extract_since(None) does
+            # ours; end at the caller instead, as extract_since(None) does.
+            # (A finished thread keeps its ident, which the calling thread
+            # may have been given since: that one is not us.)
             return StackSlice()
         was_alive = thread.is_alive()
         inner_frame = sys._current_frames().get(thread.ident)  # type: ignore
